@@ -161,3 +161,54 @@ def write_set(stmts):
             sc[s.var] = INT
     walk(stmts, f)
     return sc, ar
+
+
+def dump(stmts, ind=0, out=None, width=200):
+    """readable listing of IR statements (debugging aid, also used in replay files)"""
+    from expr import Printer
+    P = Printer('real')
+    out = [] if out is None else out
+    pad = ' ' * ind
+
+    def e(x):
+        try:
+            return P.p(x)[:width]
+        except Exception:
+            return repr(x)[:width]
+
+    for s in stmts:
+        if isinstance(s, Assign):
+            lv = s.lv.name if s.lv.index is None else '%s[%s]' % (s.lv.name, e(s.lv.index))
+            out.append('%s%s = %s' % (pad, lv, e(s.e)))
+        elif isinstance(s, If):
+            out.append('%sif (%s) {' % (pad, e(s.c)))
+            dump(s.then, ind + 2, out, width)
+            if s.els:
+                out.append(pad + '} else {')
+                dump(s.els, ind + 2, out, width)
+            out.append(pad + '}')
+        elif isinstance(s, Loop):
+            out.append('%sloop %s var=%s while (%s) {' % (pad, s.key, s.var, e(s.cond)))
+            dump(s.body, ind + 2, out, width)
+            out.append(pad + '} step {')
+            dump(s.step, ind + 2, out, width)
+            out.append(pad + '}')
+        elif isinstance(s, Assert):
+            out.append('%sassert[%s] %s  // %s' % (pad, s.kind, e(s.e), s.label))
+        elif isinstance(s, Assume):
+            out.append('%sassume %s  // %s' % (pad, e(s.e), s.why))
+        elif isinstance(s, Havoc):
+            out.append('%shavoc %s %s' % (pad, [n for n, _ in s.scalars], [n for n, _ in s.arrays]))
+        elif isinstance(s, ArrCopy):
+            out.append('%sarrcopy %s <- %s' % (pad, s.dst, s.src))
+        elif isinstance(s, MapAssign):
+            out.append('%smap [%s,%s) %s' % (pad, e(s.lo), e(s.hi), [a for a, _, _ in s.cells]))
+        elif isinstance(s, CallContract):
+            out.append('%scall %s' % (pad, s.callee_key))
+        elif isinstance(s, Ghost):
+            out.append('%s@%s' % (pad, s.name))
+        elif isinstance(s, (Goto, Label)):
+            out.append('%s%s %s' % (pad, type(s).__name__.lower(), s.label))
+        else:
+            out.append('%s%s' % (pad, type(s).__name__))
+    return out
